@@ -113,7 +113,16 @@ func c01Specs(thorough bool) []mb.Msg {
 								}
 								s.Parts = append(s.Parts, p)
 							}
+							// every other rotation mixes the file encodings inside one list (state must not leak from one
+							// file to the next); otherwise all files share fenc
+							fencOf := func(i int) string {
+								if rot%2 == 1 {
+									return fencs[(rot/2+i)%3]
+								}
+								return fenc
+							}
 							for i := 0; i < ne; i++ {
+								fenc := fencOf(i)
 								f := mb.File{Name: c01FileNames[(rot+i)%len(c01FileNames)], Content: bins[(rot+i*5)%len(bins)], Enc: fenc}
 								if fenc == "qp" {
 									f.Content = texts[(rot+i*3)%len(texts)] // QP is a text encoding
@@ -124,6 +133,7 @@ func c01Specs(thorough bool) []mb.Msg {
 								s.Embeds = append(s.Embeds, f)
 							}
 							for i := 0; i < na; i++ {
+								fenc := fencOf(i + 1)
 								f := mb.File{Name: c01FileNames[(rot+i+3)%len(c01FileNames)], Content: bins[(rot+i*5+2)%len(bins)], Enc: fenc}
 								if fenc == "qp" {
 									f.Content = texts[(rot+i*3+1)%len(texts)]
@@ -151,6 +161,44 @@ func c01Specs(thorough bool) []mb.Msg {
 			}
 			if thorough || b%4 == 0 {
 				specs = append(specs, mb.Msg{Enc: menc, Parts: []mb.Part{{Type: "text/plain", Content: []byte("body\r\n")}}, Attach: []mb.File{{Name: "b.bin", Content: []byte{byte(b)}, Enc: map[string]string{"qp": "", "b64": "b64", "8bit": "8bit"}[menc]}}})
+			}
+		}
+	}
+	// every ordered pair (and triple) of file encodings within one list, the later files carrying content that only
+	// survives in its own encoding (boundary-like lines, bare LF, all byte values)
+	hostile := [][]byte{bins[5], []byte("--x\n--x--\nbare\nLF"), bins[6]}
+	for _, kind := range []string{"attach", "embed"} {
+		for _, e1 := range fencs {
+			for _, e2 := range fencs {
+				for _, e3 := range []string{"-", "", "8bit"} {
+					for hi, h := range hostile {
+						var fs []mb.File
+						c1 := texts[3]
+						fs = append(fs, mb.File{Name: "first.txt", Content: c1, Enc: e1})
+						c2 := h
+						if e2 == "qp" {
+							c2 = texts[(hi+4)%len(texts)]
+						}
+						if e2 == "8bit" {
+							c2 = []byte("plain 8bit text\r\nsecond line\r\n")
+						}
+						fs = append(fs, mb.File{Name: "second.bin", Content: c2, Enc: e2})
+						if e3 != "-" {
+							c3 := h
+							if e3 == "8bit" {
+								c3 = []byte("third as 8bit\r\n")
+							}
+							fs = append(fs, mb.File{Name: "third.bin", Content: c3, Enc: e3})
+						}
+						s := mb.Msg{Parts: []mb.Part{{Type: "text/plain", Content: texts[3]}}}
+						if kind == "attach" {
+							s.Attach = fs
+						} else {
+							s.Embeds = fs
+						}
+						specs = append(specs, s)
+					}
+				}
 			}
 		}
 	}
